@@ -678,8 +678,10 @@ class FmtStr:
                 if end - start == chunk.width:
                     parts.append(chunk)
                 else:
+                    # (start may be negative: this run begins inside the slice, so zero-width
+                    # characters at its beginning combine with a character that is in the slice)
                     s_part = width_aware_slice(
-                        chunk.s, max(0, index.start - counter), index.stop - counter
+                        chunk.s, index.start - counter, index.stop - counter
                     )
                     parts.append(Chunk(s_part, chunk.atts))
             counter += chunk.width
